@@ -91,7 +91,10 @@ def main():
                 print(f"{pid}-{k}: patch does not apply: {out[-300:]}")
                 continue
             env = dict(os.environ, PYTHONPATH=d, PYTHONDONTWRITEBYTECODE="1")
-            rc_t, out_t = sh([PY, "-m", "pytest", "-q", "-p", "no:cacheprovider", "test"], cwd=d, env=env, timeout=900)
+            for _attempt in range(3):       # the repository's timing tests (nmt, emcy, periodic) are flaky on a loaded machine
+                rc_t, out_t = sh([PY, "-m", "pytest", "-q", "-p", "no:cacheprovider", "test"], cwd=d, env=env, timeout=900)
+                if rc_t == 0:
+                    break
             tests_pass = rc_t == 0
             # run copies of the demo that sit next to the tree they are meant to exercise
             import glob
